@@ -526,7 +526,8 @@ mips_rule_loadp (OrcCompiler *compiler, void *user, OrcInstruction *insn)
 
   if (src->vartype == ORC_VAR_TYPE_CONST) {
     if (size == 1 || size == 2) {
-      orc_mips_emit_ori (compiler, dest->alloc, ORC_MIPS_ZERO, src->value.i);
+      orc_mips_emit_ori (compiler, dest->alloc, ORC_MIPS_ZERO,
+          src->value.i & 0xffff);
       if (size == 1)
         orc_mips_emit_replv_qb (compiler, dest->alloc, dest->alloc);
       else if (size == 2)
